@@ -13,6 +13,9 @@
 (*          below which selection/sorting routines fall back to insertion sort) built by formula:  *)
 (*          all absolute errors distinct / repeated magnitudes with both signs / mostly zero /     *)
 (*          ties around the median; the permutation is the reversal                                *)
+(*   regs : regression vectors with a large common offset (f32: 2^11, 2^16, 2^20; f64: 1e6, 1e9,     *)
+(*          2^40) and integer or 1/8 spreads -- exactly representable, ill-conditioned for          *)
+(*          uncentered formulas; the oracle works on the un-shifted integers (shift invariance)     *)
 (*   pear (wide, tag "pearwide"): 4..6 columns chosen from a pool of eight (see PearPool)            *)
 (*   rocu : scores that are neighbouring f32 values: the case carries integer ranks and a base,    *)
 (*          the harness maps rank r to 1/2 + r 2^-24 ("half"), r 2^-30 ("zero"), 1 - r 2^-24       *)
@@ -29,6 +32,7 @@ CONSTANTS Kinds,
           SilMinLen, SilLen, SilPos, SilKs,
           PearRows, PearCols, PearHi,
           PearWideCols,            \* numbers of columns of the wide Pearson matrices (kind tag "pearwide")
+          RegsLens,                \* lengths of the offset-family regression vectors (kind "regs")
           RegLongLens,             \* lengths of the long regression vectors (kind tag "reglong")
           RocuLen, RocuRank        \* ulp-neighbour scores: ranks 0..RocuRank, length 2..RocuLen
 
@@ -91,6 +95,31 @@ InitPearWide ==
        IN case = [kind |-> "pear",
                   inp |-> [cols |-> [p \in 1..mm |-> PearPool[ix[IF rv THEN mm + 1 - p ELSE p]]], perm |-> Rot(6)]]
 
+\* offset families: the values fed to linfa are  off + a[q]/unit  and  off + b[q]/unit  in float type ft, all exactly
+\* representable (off a large integer, unit a power of two); g is such that (unit roundoff of ft) * off <= 2^-g.
+\* sc spreads the integers so that a backward-stable evaluation keeps (n u off / std)^2 small.
+OffFamilies ==
+  { [ft |-> "f32", off |-> "2048", g |-> 13, unit |-> 1, sc |-> 1],
+    [ft |-> "f32", off |-> "2048", g |-> 13, unit |-> 8, sc |-> 1],            \* 2048 + 0.125 k
+    [ft |-> "f32", off |-> "65536", g |-> 8, unit |-> 1, sc |-> 2],
+    [ft |-> "f32", off |-> "65536", g |-> 8, unit |-> 8, sc |-> 8],
+    [ft |-> "f32", off |-> "1048576", g |-> 4, unit |-> 1, sc |-> 8],          \* 2^20
+    [ft |-> "f32", off |-> "1048576", g |-> 4, unit |-> 8, sc |-> 64],
+    [ft |-> "f64", off |-> "1000000", g |-> 33, unit |-> 1, sc |-> 1],
+    [ft |-> "f64", off |-> "1000000", g |-> 33, unit |-> 8, sc |-> 1],
+    [ft |-> "f64", off |-> "1000000000", g |-> 23, unit |-> 1, sc |-> 1],      \* 1e9 + k
+    [ft |-> "f64", off |-> "1000000000", g |-> 23, unit |-> 8, sc |-> 1],
+    [ft |-> "f64", off |-> "1099511627776", g |-> 13, unit |-> 1, sc |-> 1],   \* 2^40
+    [ft |-> "f64", off |-> "1099511627776", g |-> 13, unit |-> 8, sc |-> 1] }
+RegsTruths(nn) == { [q \in 1..nn |-> q - 1], [q \in 1..nn |-> (q * 3) % 10], [q \in 1..nn |-> (q * q) % 7] }
+RegsErrors(nn) == { [q \in 1..nn |-> IF q % 2 = 0 THEN 2 ELSE -2], [q \in 1..nn |-> ((q * 5) % 4) - 1],
+                    [q \in 1..nn |-> IF q = 1 THEN 3 ELSE 0] }
+InitRegs ==
+  \E nn \in RegsLens : \E fam \in OffFamilies, kv \in RegsTruths(nn), ev \in RegsErrors(nn) :
+    case = [kind |-> "regs",
+            inp |-> [a |-> [q \in 1..nn |-> fam.sc * (kv[q] + ev[q])], b |-> [q \in 1..nn |-> fam.sc * kv[q]],
+                     unit |-> fam.unit, ft |-> fam.ft, off |-> fam.off, g |-> fam.g, perm |-> Rot(nn)]]
+
 \* long regression vectors: b = truth, a = prediction = b + d for an error pattern d
 Rev(nn) == [q \in 1..nn |-> nn + 1 - q]
 LongPatterns(nn) ==
@@ -115,6 +144,7 @@ InitRocu ==
     /\ case = [kind |-> "rocu", inp |-> [rank |-> rv, base |-> bs, truth |-> tv, perm |-> Rot(nn)]]
 
 Init ==
+  \/ "regs" \in Kinds /\ InitRegs
   \/ "pearwide" \in Kinds /\ InitPearWide
   \/ "reglong" \in Kinds /\ InitRegLong
   \/ "rocu" \in Kinds /\ InitRocu
